@@ -192,7 +192,7 @@ def phase_grammar(ctx, only=None, edits=True):
             tot[k] = tot.get(k, 0) + v
         for s in r["samples"]:
             ctx.sample({"phase": "grammar", **s}, limit=3)
-    ctx.count(tot.get("builds", 0) + tot.get("parses", 0) + tot.get("edits", 0))
+    ctx.count(tot.get("builds", 0) + tot.get("parses", 0) + tot.get("edits", 0) + tot.get("rewrites", 0))
     ctx.validated(tot.get("cases", 0))
     for (k, key) in table:
         ctx.nontrivial(("g", k, key))
@@ -346,8 +346,12 @@ def phase_life(ctx, objfile):
     jobs = []
     for c in concs:
         modes = ["py", "rs"] if c["kind"] == "tree" else ["py"]
+        # thorough: every transition of the graph on the first field triple of each kind (and on trees and
+        # blobs), per algorithm; the other triples replay a prefix of the same (shuffled) behaviour list
+        full = c["kind"] in ("tree", "blob") or c["triple"] == pools[c["kind"] + "Triples"][0]
         for m in modes:
             jobs.append({"task": "life", "mode": m, "dump": ctx.dump, "pools": ctx.poolf, "paths": pf, "concs": [c],
+                         "path_limit": None if (ctx.quick or (full and m == "py")) else 6000,
                          "histories": ctx.pick(30, 1000), "history_len": ctx.pick(16, 24)})
     jobs.append({"task": "life", "mode": "py", "dump": ctx.dump, "pools": ctx.poolf, "store": True, "tmp": ctx.tmpdir("st")})
     results = spawn(ctx, jobs, "life")
